@@ -223,6 +223,26 @@ def _real(ctx, d, pgpy, SI):
             ctx.fail('real-verdict-differs-from-model', {'case': d, 'subject': label, 'got': bool(sv), 'expected': expect, 'issues': issues})
         if not correct and good:
             ctx.fail('wrong-signature-listed-good', {'case': d, 'subject': label})
+    # the verifying key as an attacker would like it to read: a never-expires / expires-in-a-century (for expired keys) or an expires-after-one-
+    # second (for valid ones) key-expiration subpacket appended to the unsigned area of its self-signatures: the verdict must not move
+    from .. import unhashed
+    for label, extra in (('expires-in-100-years', unhashed.EXPIRES_IN_100_YEARS), ('never-expires', unhashed.NEVER_EXPIRES), ('expires-after-1s', unhashed.sp(9, (1).to_bytes(4, 'big'))),
+                         ('signature-expired', unhashed.sp(3, (1).to_bytes(4, 'big')))):
+        blob_u, n_u = unhashed.inject(bytes(k.pubkey), {0x10, 0x11, 0x12, 0x13, 0x18, 0x1F}, extra)
+        try:
+            pub_u = pgpy.PGPKey.from_blob(blob_u)[0]
+        except Exception:
+            ctx.observe('key_with_unhashed_additions_not_loadable')
+            continue
+        ctx.count('real_verdicts')
+        ctx.count('unsigned_expiry_additions')
+        ctx.count('evaluations')
+        if pub_u.is_expired != expired:
+            ctx.fail('expiry-follows-unsigned-subpacket', {'case': d, 'addition': label, 'is_expired': pub_u.is_expired, 'signed_state': 'expired' if expired else 'valid'})
+        sv = pub_u.verify(doc, sig)
+        check_partition(ctx, sv, {'case': d, 'subject': 'document, key with unsigned ' + label})
+        if bool(sv) != (not expired):
+            ctx.fail('real-verdict-differs-from-model', {'case': d, 'subject': 'document', 'unsigned_addition': label, 'got': bool(sv), 'expected': not expired})
     # a signature the key cannot have made, relabelled (unhashed issuer) as coming from each of its components in turn - the encryption-only
     # subkey among them: whatever happens, it is never an empty (and therefore truthy) result, and never listed as good
     from .C01 import _rewrite_issuer
